@@ -6,6 +6,13 @@ open Fastor_model
 let rec pos_of_int (n : int) : positive =
   if n = 1 then XH else if n land 1 = 0 then XO (pos_of_int (n lsr 1)) else XI (pos_of_int (n lsr 1))
 let z (n : int) : z = if n = 0 then Z0 else if n > 0 then Zpos (pos_of_int n) else Zneg (pos_of_int (-n))
+(* decimal string -> Z (values beyond OCaml's 63-bit int) *)
+let zs (str : string) : z =
+  let neg = String.length str > 0 && str.[0] = '-' in
+  let acc = ref Z0 in
+  String.iteri (fun i ch -> if not (i = 0 && neg) then acc := Z.add (Z.mul !acc (z 10)) (z (Char.code ch - 48))) str;
+  if neg then Z.opp !acc else !acc
+let zsl (l : string list) : z list = List.map zs l
 let zl (l : int list) : z list = List.map z l
 let zc ((a, b) : int * int) = (z a, z b)
 let zcl l = List.map zc l
